@@ -180,4 +180,43 @@ def nullcount_obligations(prog):
         obs.append(Obligation("R-NULL", "R-NULL:count:%s:%s" % k, f.loc, k[0],
                               "%s may be NULL exactly when %s is zero: the argument check of %s pairs the pointer with its own count" % (k[1], ent["count"], k[0]),
                               ok, "paired with %s" % ", ".join(sorted(cur[k])), props=props_of_function(f) | {"C07"}))
-    return obs, {"pairs": len(tab)}
+    fw = forward_obligations(prog, tab)
+    return obs + fw, {"pairs": len(tab), "forwarding_callers": len(fw)}
+
+
+def forward_obligations(prog, tab):
+    """A function that only hands its own parameter q on as the optional array p of G (G accepts p == NULL when its count is
+    zero) must not itself insist on q != NULL unconditionally: wrapper and callee then disagree on the empty list."""
+    obs = []
+    for ent in tab:
+        G = prog.functions.get(ent["function"])
+        if G is None or ent["param"] not in G.param_index:
+            continue
+        pi = G.param_index[ent["param"]]
+        for f in prog.functions.values():
+            if f is G or not f.blocks or not f.file.startswith("src/") or f.file.endswith("tests_impl.h"):
+                continue
+            for el, c in f.all_calls():
+                if callee_name(c) != G.name or len(c[3]) <= pi:
+                    continue
+                a = strip(c[3][pi])
+                if kind(a) != "var" or a[1] not in f.param_index:
+                    continue
+                # ... together with its own count parameter (a constant count is never zero: a strict check is fine then)
+                ci = G.param_index.get(ent["count"])
+                if ci is None or len(c[3]) <= ci or kind(strip(c[3][ci])) != "var" or strip(c[3][ci])[1] not in f.param_index:
+                    continue
+                q = a[1]
+                strict = None
+                for b in f.blocks.values():
+                    if b.cond is None or not b.term or not any(m in ("ARG_CHECK", "ARG_CHECK_VOID") for m in b.term.get("macros", [])):
+                        continue
+                    t = _null_test(b.cond)
+                    if t and t[0] == q:
+                        strict = b.term["loc"]
+                obs.append(Obligation("R-NULL", "R-NULL:forward:%s:%s->%s" % (f.name, q, G.name), strict or el.loc, f.name,
+                                      "%s hands %s on as the optional array %s of %s (NULL allowed when %s is zero) and must not itself require it to be non-NULL unconditionally"
+                                      % (f.name, q, ent["param"], G.name, ent["count"]), strict is None,
+                                      "unconditional ARG_CHECK(%s != NULL) at %s" % (q, strict) if strict else "no unconditional NULL check of %s in %s" % (q, f.name),
+                                      props=props_of_function(f) | {"C07"}))
+    return obs
